@@ -524,7 +524,7 @@ def render_const(chs, skip=frozenset()):
     return {"c10_const": {"src/main.rs": "\n".join(lines) + "\n", "src/support.rs": SUPPORT}}, linemap
 
 
-def const_family(ws_tag, chains, shard=120):
+def const_family(ws_tag, chains, shard=None):
     """collect_const! over the given chains x CONST_INPUTS in its own workspace (sharded over several crates so that
     rustc's const evaluator runs in parallel): iterated discovery of rejected items, build, run, classify.
     Returns (violations, evaluated item count, machinery errors, F7-shaped known count)."""
@@ -532,6 +532,8 @@ def const_family(ws_tag, chains, shard=120):
     mach, viol = [], []
     const_rejected = {}
     cur = list(chains)
+    if shard is None:
+        shard = max(20, (len(chains) + 15) // 16)  # about one crate per core: const evaluation happens at compile time
     nshards = max(1, (len(chains) + shard - 1) // shard)
 
     def render_all(chs, bad=frozenset()):
@@ -613,6 +615,13 @@ def direction_chains(tier):
             deep = [n for c in deep for ad in core if (n := c.apply(ad)) is not None]
             if d >= 2:
                 allc.extend(c for c in deep if "rev" in c.names)
+        if src[0] == "slice":
+            # stateful adapters on both sides of a flattening adapter (their counters must not be shared): 3-chains over the
+            # core adapters that contain flat_map but no rev (the rev ones are above), slice source only
+            lvl = [Chain(src)]
+            for d in range(3):
+                lvl = [n for c in lvl for ad in core if (n := c.apply(ad)) is not None]
+            allc.extend(c for c in lvl if "flat_map" in c.names and "rev" not in c.names)
         out.extend(c for c in allc if c.typeable and c.konst_ok and not c.has_from)
     return out
 
